@@ -104,7 +104,25 @@ fn run(ctx: &mut Ctx) -> Verdict {
         1 => (vec![Step::Chunk(hello)], true),
         _ => (vec![Step::Chunk(hello[..40].to_vec()), Step::Close(CloseKind::HalfClean)], false),
     };
-    let sc = Scenario { kind, steps, requests: usize::from(outcome_kind == 0), extra_request: false, label: format!("log capture, filter {filter:?}, outcome {outcome_kind}"), bad_credentials: bad, password: password.clone(), big_request: 0, slow_peer: false };
+    // SSH: the server may sit on the password request for a while (an AAA backend that is slow to answer)
+    // before it accepts or rejects; whatever the client does about the wait, it must not log the password
+    let auth_delay_ms: u64 = if kind == Kind::Ssh { [0, 0, 0, 0, 0, 3_000, 14_000, 65_000][ctx.tape.weighted(&[1; 8])] } else { 0 };
+    if auth_delay_ms > 0 {
+        ctx.count("fault.ssh_auth_answer_delayed");
+    }
+    let sc = Scenario {
+        kind,
+        steps,
+        requests: usize::from(outcome_kind == 0),
+        extra_request: false,
+        label: format!("log capture, filter {filter:?}, outcome {outcome_kind}, auth answer after {auth_delay_ms} ms"),
+        bad_credentials: bad,
+        password: password.clone(),
+        big_request: 0,
+        slow_peer: false,
+        ssh_setup: crate::rsim::SshSetup { auth_delay_ms, at_subsystem: None },
+        abandon_close: false,
+    };
     ev!(ctx, "scenario {}/{} password {:?}", kind.name(), sc.label, password);
     let buf = Buf(Arc::default());
     let buf2 = buf.clone();
@@ -163,7 +181,7 @@ pub static C20: PropSpec = PropSpec {
     runs: |t| if t == Tier::Thorough { 100_000 } else { 1_500 },
     enumerated: |_| 0,
     run,
-    rule: "real SSH (password) and TLS (client key) session establishment against the scripted peers with a capturing tracing subscriber (span creation and close events included, so that every #[instrument]ed argument is rendered); 8 filter directives from 'error' to 'trace' incl. per-target ones; 11 passwords (quotes, whitespace, backslash, XML metacharacters, mixed and entirely non-ASCII ones); outcomes: success + one rpc, rejected credentials, peer closes inside the hello. Oracle: no line whose target is one of the repository's crates contains the secret in clear, Debug-escaped, hex (4 spellings), base64 (2) or byte-list (2) form; for the key: the DER, two 16-byte windows of it, and each PEM body line. Agent part (3 runs in 7): the agent executable (the repository's own bin source, argument parsing, global subscriber, PEM readers) is started as a child process with -qq..-vvv, RUST_LOG unset / trace / per-target, RUST_BACKTRACE 0/1, one-shot or daemon mode, logging to stderr or to a log file, against a `remote` target on a closed loopback port; the client key file (PKCS#8 EC, SEC1 EC, PKCS#1 RSA) has met one of 19 storage faults: intact, truncated at any offset, line ends lost (joined by blanks / by nothing, with or without a final LF), CR-only, CRLF, one flipped bit, leading garbage / BOM / bag attributes, torn BEGIN line, missing or torn END line, unknown label, empty, missing, a directory, swapped with the certificate, key+certificate in one file (both orders), re-wrapped to other line widths. Oracle: nothing the process writes (stderr, stdout, log files; ANSI sequences removed) contains the DER, its private part or any 16-byte window of it in the ten encodings, or any 20-character window of the private part of the PEM text, except in a log line whose target is a dependency. Non-trivial = more than 200 bytes of log text captured (agent part: any output, or quiet mode); distinct = distinct event-log hash",
+    rule: "real SSH (password) and TLS (client key) session establishment against the scripted peers with a capturing tracing subscriber (span creation and close events included, so that every #[instrument]ed argument is rendered); 8 filter directives from 'error' to 'trace' incl. per-target ones; 11 passwords (quotes, whitespace, backslash, XML metacharacters, mixed and entirely non-ASCII ones); outcomes: success + one rpc, rejected credentials, peer closes inside the hello; SSH: the answer to the password request comes at once or after 3, 14 or 65 virtual seconds. Oracle: no line whose target is one of the repository's crates contains the secret in clear, Debug-escaped, hex (4 spellings), base64 (2) or byte-list (2) form; for the key: the DER, two 16-byte windows of it, and each PEM body line. Agent part (3 runs in 7): the agent executable (the repository's own bin source, argument parsing, global subscriber, PEM readers) is started as a child process with -qq..-vvv, RUST_LOG unset / trace / per-target, RUST_BACKTRACE 0/1, one-shot or daemon mode, logging to stderr or to a log file, against a `remote` target on a closed loopback port; the client key file (PKCS#8 EC, SEC1 EC, PKCS#1 RSA) has met one of 19 storage faults: intact, truncated at any offset, line ends lost (joined by blanks / by nothing, with or without a final LF), CR-only, CRLF, one flipped bit, leading garbage / BOM / bag attributes, torn BEGIN line, missing or torn END line, unknown label, empty, missing, a directory, swapped with the certificate, key+certificate in one file (both orders), re-wrapped to other line widths. Oracle: nothing the process writes (stderr, stdout, log files; ANSI sequences removed) contains the DER, its private part or any 16-byte window of it in the ten encodings, or any 20-character window of the private part of the PEM text, except in a log line whose target is a dependency. Non-trivial = more than 200 bytes of log text captured (agent part: any output, or quiet mode); distinct = distinct event-log hash",
     components: &[
         ("netconf session.rs / transport/ssh.rs / transport/tls.rs with their tracing instrumentation", "real"),
         ("tracing, tracing-subscriber (fmt layer, EnvFilter)", "real; installed per run with a thread-local default dispatcher"),
